@@ -1,6 +1,7 @@
 /- Driver op for C13: the Monte Carlo g-formula simulation loop (`ZV.MC`), carrier `Rat`. -/
 import Driver.Common
 import ZepidVerif.Model.MonteCarlo
+import ZepidVerif.Model.MonteCarloGen
 namespace ZVD
 open ZV ZV.MC
 
@@ -118,7 +119,16 @@ def opMcSim (a : Args) : Except String String := do
     let low := lowRecords cfg hs
     let vals (cs : List Nat) (e : Env Rat) : List String := cs.map fun c => showRat (e c)
     let sh (l : List String) : String := if l.isEmpty then "[]" else ",".intercalate l
-    pure (s!"ok lens={showList toString (hs.map (·.2.length))} " ++
+    -- the same loop run by the pieces REGENERATED from MonteCarloGFormula.fit (Gen/MonteCarlo.lean)
+    let gh := genSimAllFrom 48 cfg (planStr plan) tmax draws 0 bases
+    let gfull := genRecords cfg false gh
+    let glow := genRecords cfg true gh
+    pure (s!"ok glens={showList toString (gh.map (·.2.length))} " ++
+      s!"gfulluid={showList toString (gfull.map (·.1))} " ++
+      s!"gfull={sh (gfull.flatMap fun r => vals outcols r.2)} " ++
+      s!"glowuid={showList toString (glow.map (·.1))} " ++
+      s!"glow={sh (glow.flatMap fun r => vals outcols r.2)} " ++
+      s!"lens={showList toString (hs.map (·.2.length))} " ++
       s!"fulluid={showList toString (full.map (·.1))} " ++
       s!"full={sh (full.flatMap fun r => vals outcols r.2.out)} " ++
       s!"lowuid={showList toString (low.map (·.1))} " ++
